@@ -7,6 +7,8 @@ CONSTANTS
   MaxLive = 4
   MaxOps = 5
   Alias = FALSE
+  K = 0
+  DropZero = FALSE
 VIEW view
-INVARIANTS TypeOK Conserved CounterOK Capped ZeroAfterDrain DecisionOK
+INVARIANTS TypeOK Conserved CounterOK Capped PendCapped ZeroAfterDrain DecisionOK
 CHECK_DEADLOCK FALSE
